@@ -150,7 +150,7 @@ def run(ctx):
     vlib.require_model_ok(r, cfg)
     ctx.add_tlc(r, "exhaustive " + cfg)
     out = os.path.join(ctx.scratch_dir("rec"), "storagedep_trace.ndjson")
-    nhist, ntx = (1, 70) if quick else (6, 160)
+    nhist, ntx = (1, 50) if quick else (6, 160)
     res = vlib.run_driver(ctx, binary, ["-out", out, "-n", str(ntx), "-x", str(nhist)], timeout=3000)
     s = vlib.handle_driver_results(ctx, res)
     lines = [json.loads(l) for l in open(out) if l.strip()]
